@@ -517,6 +517,7 @@ std::string step(const std::string& line) {
     // new fixup: the newest fixup of a label whose chain grew (at most one per call)
     if (after.fix == before.fix + 1) {
       uint32_t id = 0;
+      bool found_fixup = false;
       for (const LabelEntry& le : t.code.label_entries()) {
         const Fixup* f = le.unresolved_fixups();
         if (f && f->section_id == after.cur && f->offset >= before.off && f->offset < after.off) {
@@ -526,9 +527,19 @@ std::string step(const std::string& line) {
                    unsigned(f->format.imm_discard_lsb()), f->offset, (long long)f->rel);
           extra += b;
           extra += f->label_or_reloc_id == Globals::kInvalidId ? std::string("-") : std::to_string(f->label_or_reloc_id);
+          found_fixup = true;
           break;
         }
         id++;
+      }
+      // a reference to a label that is already bound in another section goes straight to the global list (new_fixup)
+      const Fixup* g = t.code._fixups;
+      if (!found_fixup && g && g->section_id == after.cur && g->offset >= before.off && g->offset < after.off) {
+        char b[160];
+        snprintf(b, sizeof b, " nf=%u:%u:%u:%u:%u:%u:%u:%zu:%lld:-", g->label_or_reloc_id, unsigned(g->format.type()), unsigned(g->format.value_size()),
+                 unsigned(g->format.value_offset()), unsigned(g->format.imm_bit_count()), unsigned(g->format.imm_bit_shift()),
+                 unsigned(g->format.imm_discard_lsb()), g->offset, (long long)g->rel);
+        extra += b;
       }
     }
   }
